@@ -107,4 +107,122 @@ pub proof fn lemma_no_rec_in_window(r: Seq<u8>, n: int)
         lemma_head_of_window(r, n, first_rec(r.take(n)).unwrap());
     }
 }
+
+// ---------------------------------------------------------------- the writer side
+/// the frames of a record list, concatenated
+pub open spec fn frames(rs: Seq<SnapshotRecordDto>) -> Seq<u8>
+    decreases rs.len()
+{
+    if rs.len() == 0 { Seq::empty() } else { frames(rs.drop_last()) + pb_frame(item_msg(rs.last())) }
+}
+/// THE image of a snapshot: the framed header, then the framed records in the order they were handed to the writer
+pub open spec fn snap_image(h: SnapshotHeaderDto, rs: Seq<SnapshotRecordDto>) -> Seq<u8> { pb_frame(hdr_msg(h)) + frames(rs) }
+
+impl SnapshotWriter {
+    /// everything is appended at the end of the file
+    pub open spec fn wf(&self) -> bool { self.file.pos() == self.file.contents().len() }
+}
+impl SnapshotWriterActor {
+    /// the writer is open and appends
+    pub open spec fn ready(&self) -> bool { self.inner_writer is Some && self.inner_writer.unwrap().wf() }
+    pub open spec fn image(&self) -> Seq<u8> { self.inner_writer.unwrap().file.contents() }
+}
+
+// ---------------------------------------------------------------- round trip: what the writer wrote is what the reader reads
+/// a frame at the head of a stream is its first record, whatever follows
+pub proof fn lemma_frame_head<M: PbMessage>(m: M, t: Seq<u8>)
+    requires 1 <= m.pb_bytes().len() < 0x1000_0000
+    ensures first_rec(pb_frame(m) + t) == Some(pb_frame(m).len() as int), (pb_frame(m) + t).take(pb_frame(m).len() as int) == pb_frame(m),
+        (pb_frame(m) + t).skip(pb_frame(m).len() as int) == t, store_len(pb_frame(m) + t), pb_frame(m).len() >= 2,
+{
+    let l = m.pb_bytes().len() as nat;
+    let f = pb_frame(m);
+    let s = f + t;
+    let rest = m.pb_bytes() + t;
+    assert(s =~= enc(l) + rest);
+    lemma_dec_enc(l, rest);
+    lemma_enc_len(l);
+    lemma_enc_len_table(l);
+    // the first byte of a length >= 1 is not zero
+    assert(s[0] != 0) by {
+        if l < 128 { assert(enc(l) =~= seq![l as u8]); assert(s[0] == l as u8); }
+        else { let b = ((l % 128) + 128) as u8; assert(enc(l)[0] == b); assert(s[0] == b); }
+    }
+    assert(f.len() == enc(l).len() + l);
+    assert(s.take(f.len() as int) =~= f);
+    assert(s.skip(f.len() as int) =~= t);
+}
+
+/// frames() can also be unfolded at the front
+pub proof fn lemma_frames_front(rs: Seq<SnapshotRecordDto>)
+    requires rs.len() > 0
+    ensures frames(rs) == pb_frame(item_msg(rs[0])) + frames(rs.skip(1))
+    decreases rs.len()
+{
+    if rs.len() == 1 {
+        assert(rs.drop_last() =~= Seq::<SnapshotRecordDto>::empty());
+        assert(rs.skip(1) =~= Seq::<SnapshotRecordDto>::empty());
+        assert(frames(rs.drop_last()) =~= Seq::<u8>::empty());
+        assert(frames(rs.skip(1)) =~= Seq::<u8>::empty());
+        assert(frames(rs) =~= pb_frame(item_msg(rs[0])) + frames(rs.skip(1)));
+    } else {
+        lemma_frames_front(rs.drop_last());
+        assert(rs.drop_last().skip(1) =~= rs.skip(1).drop_last());
+        assert(rs.skip(1).last() == rs.last());
+        assert(rs.drop_last()[0] == rs[0]);
+        assert(frames(rs) =~= pb_frame(item_msg(rs[0])) + (frames(rs.skip(1).drop_last()) + pb_frame(item_msg(rs.last()))));
+    }
+}
+
+/// the records part of an image: an ok stream without bad frames that decodes to exactly the records written, in order
+pub proof fn lemma_records_roundtrip(rs: Seq<SnapshotRecordDto>)
+    ensures ok_stream(frames(rs)), !bad_frame(frames(rs)), recs_of(frames(rs)) == rs
+    decreases rs.len()
+{
+    broadcast use axiom_item_roundtrip, axiom_item_nonempty, axiom_item_decodes;
+    if rs.len() == 0 {
+        assert(frames(rs) =~= Seq::<u8>::empty());
+        assert(recs_of(frames(rs)) =~= rs);
+    } else {
+        let m = item_msg(rs[0]);
+        let t = frames(rs.skip(1));
+        lemma_frames_front(rs);
+        lemma_frame_head(m, t);
+        lemma_records_roundtrip(rs.skip(1));
+        let s = frames(rs);
+        let n = pb_frame(m).len() as int;
+        // the decoded first frame is the first record
+        assert(frame_msg::<LogSnapshotItem>(pb_frame(m)) == m) by {
+            let w = frame_msg::<LogSnapshotItem>(pb_frame(m));
+            assert(pb_frame(w) == pb_frame(m));
+            assert(pb_frame(m).take(pb_frame(m).len() as int) =~= pb_frame(m));
+            axiom_pb_frame_unique(m, w, pb_frame(m));
+        }
+        assert(recs_of(s) =~= seq![rs[0]] + recs_of(t));
+        assert(seq![rs[0]] + rs.skip(1) =~= rs);
+    }
+}
+
+/// C01 / C08 — THE ROUND TRIP: the image the writer produces for a header and a list of records (the postconditions of
+/// SnapshotWriter::init / write_record and of the writer actor's handler say the file holds exactly `snap_image(h, rs)`) is a snapshot
+/// image the reader accepts, and the reader (contracts of SnapshotReader::{init, init_by_file, read_record}) yields exactly that header
+/// and exactly those records, in that order — nothing lost, nothing added, nothing changed.
+pub proof fn lemma_snapshot_roundtrip(h: SnapshotHeaderDto, rs: Seq<SnapshotRecordDto>)
+    requires snap_image(h, rs).len() < 0x1_0000_0000
+    ensures snap_image_ok(snap_image(h, rs)), snap_hdr(snap_image(h, rs)) == Some(h), snap_recs(snap_image(h, rs)) == rs,
+        !bad_frame(snap_image(h, rs).skip(first_rec(snap_image(h, rs)).unwrap())),
+{
+    broadcast use axiom_hdr_roundtrip, axiom_hdr_nonempty, axiom_hdr_decodes;
+    let m = hdr_msg(h);
+    let t = frames(rs);
+    let img = snap_image(h, rs);
+    lemma_frame_head(m, t);
+    lemma_records_roundtrip(rs);
+    assert(frame_msg::<SnapshotHeader>(pb_frame(m)) == m) by {
+        let w = frame_msg::<SnapshotHeader>(pb_frame(m));
+        assert(pb_frame(w) == pb_frame(m));
+        assert(pb_frame(m).take(pb_frame(m).len() as int) =~= pb_frame(m));
+        axiom_pb_frame_unique(m, w, pb_frame(m));
+    }
+}
 } // verus!
